@@ -55,7 +55,9 @@ class CloseExplore(Explore):
                 # deliver another welcome: that path is C14's subject, see known findings there)
                 out.append(("application event delivered after closed", "%s: %r" % (c.name, c.ev[closed_idx[0]:])))
         # for the rest (verdict, resources) internal failures are C14's subject: Boss.error() reports closed at once, without the shutdown handshake
-        if any(c.errors for c in sim.cl):
+        # only where the configuration itself provokes them (injected internal error; third participant = known C14 findings): an internal failure
+        # in any other configuration still has to produce an admissible verdict and free the server resources
+        if any(c.errors for c in sim.cl) and (sim.adv & {"badhex", "third"}):
             return out
         for i, c in enumerate(sim.cl):
             closed_idx = [k for k, e in enumerate(c.ev) if e[0] == "closed"] if c.delegated else []
